@@ -742,10 +742,17 @@ func (am *AccountingManager) persistActiveSession(session *AccountingSession) {
 		return
 	}
 
-	if err := os.WriteFile(path, data, 0600); err != nil {
+	// Write to a temporary file and rename it over the old copy: a crash in the
+	// middle of the write must not leave a truncated copy behind (the copy of
+	// a live session is rewritten right before its Stop is sent).
+	tmp := path + ".tmp"
+	if err := os.WriteFile(tmp, data, 0600); err != nil {
+		am.logger.Debug("Failed to persist session", zap.Error(err))
+		return
+	}
+	if err := os.Rename(tmp, path); err != nil {
 		am.logger.Debug("Failed to persist session", zap.Error(err))
 	}
-}
 
 // removePersistedSession removes a persisted session file
 func (am *AccountingManager) removePersistedSession(sessionID string) {
@@ -803,7 +810,14 @@ func (am *AccountingManager) recoverOrphanedSessions() error {
 
 		var session AccountingSession
 		if err := json.Unmarshal(data, &session); err != nil {
-			os.Remove(path) // Remove corrupt file
+			// The copy of a started session that cannot be read: no Stop can be
+			// built from it, but deleting it would drop the session without a
+			// trace. Keep it aside for the operator.
+			am.logger.Error("Unreadable persisted accounting session kept aside",
+				zap.String("file", path),
+				zap.Error(err),
+			)
+			os.Rename(path, path+".corrupt")
 			continue
 		}
 
